@@ -240,6 +240,19 @@ def rule_r4(p, res):
     rz = returns_of(nz.node)
     s = norm(rz[0].value) if rz else ""
     r.check("sqrt" in s and "sum(axis=1" in s and "/" in s, nz, nz.node, "_normalize must divide each row by its Euclidean length")
+    e = rz[0].value if rz else None
+    while isinstance(e, ast.Call) and (dotted(e.func) or "").split(".")[-1] in ("nan_to_num",) and e.args:
+        e = e.args[0]
+    okd = isinstance(e, ast.BinOp) and isinstance(e.op, ast.Div) and norm(e.left) == nz.params[0]
+    if okd:
+        den = e.right
+        eps = [x for x in ast.walk(den) if isinstance(x, ast.BinOp) and isinstance(x.op, ast.Add) and (const_value(x.left) is not None or const_value(x.right) is not None)]
+        r.check(not eps, nz, rz[0], "the length used for normalising has a constant added to it (`%s`): the result is no longer a unit vector and depends on the scale of the mesh" % norm(den)[:60],
+                {"divisor": norm(den)[:60]})
+        r.check(norm(den) in ("np.sqrt((%s ** 2).sum(axis=1, keepdims=True))" % nz.params[0], "np.linalg.norm(%s, axis=1, keepdims=True)" % nz.params[0], "np.linalg.norm(%s, axis=1)[:, None]" % nz.params[0]), nz, rz[0],
+                "the divisor must be the Euclidean length of each row (found `%s`)" % norm(den)[:60])
+    else:
+        r.check(False, nz, nz.node, "_normalize must return v / |v| (optionally through nan_to_num)")
 
 
 def rule_r5(p, res):
@@ -387,5 +400,7 @@ WITNESSES = [
     Witness("C17.W9", "menpo/shape/mesh/base.py", "TriMesh.edge_indices", "tl[:, [2, 0]]", "tl[:, [2, 1]]", rule="C17.R5", construct="TriMesh.edge_indices"),
     Witness("C17.W10", "menpo/shape/mesh/base.py", "TriMesh.from_mask", "masked_adj = mask_adjacency_array(isolated_mask, self.trilist)", "masked_adj = mask_adjacency_array(mask, self.trilist)",
             rule="C17.R1", construct="TriMesh.from_mask"),
+    Witness("C17.W11", "menpo/shape/mesh/normals.py", "_normalize", "np.nan_to_num(v / np.sqrt((v ** 2).sum(axis=1, keepdims=True)))", "v / (np.sqrt((v ** 2).sum(axis=1, keepdims=True)) + 1e-08)",
+            rule="C17.R4", construct="_normalize", note="seeded change C17-B"),
     Witness("C17.T1", "menpo/shape/mesh/base.py", "TriMesh.from_mask", "tm.points = tm.points[isolated_mask, :]", "tm.points = tm.points[isolated_mask]", kind="T"),
 ]
